@@ -192,10 +192,27 @@ Qed.
 
 Ltac hr_neutral2 := unfold setk; apply head_run_neutral; [intro th; repeat split | auto].
 
+Lemma inv2_wait_all_op : forall progs s v c f, Inv1 s -> Inv2 s -> head_run s v -> Inv2 (wait_all_op progs s v c f).
+Proof.
+  intros progs s v c f I1 I2 Hr. unfold wait_all_op, getth.
+  assert (W : Inv2 (wait_check progs s v c f)).
+  { unfold wait_check, getth, getvc. destruct (wait_cond s v); [|now apply inv2_ret].
+    destruct (v_sleepq (s_vc s v)).
+    - apply inv2_yield; [now apply inv1_setk|now apply inv2_setk|hr_neutral2].
+    - destruct (expired _ _).
+      + apply inv2_yield; [now apply inv1_setk|now apply inv2_setk|hr_neutral2].
+      + destruct (lock_free _); auto.
+        apply inv2_do_sleep; [now apply inv1_setk|now apply inv2_setk|hr_neutral2]. }
+  destruct (Nat.eqb c v); [|destruct f; [apply (inv2_same s); auto|now apply inv2_ret]].
+  destruct (th_k (s_th s c)) as [|[|[|k]]]; auto.
+  - pose proof (inv2_sen s c I2) as X. destruct (set_error_number s c) as [[s1 r] e]. cbn in X. now apply inv2_setk.
+  - now apply inv2_setk.
+Qed.
+
 Lemma inv2_exec_op : forall progs s v c o, Inv1 s -> Inv2 s -> head_run s v -> Inv2 (exec_op progs s v c o).
 Proof.
   intros progs s v c o I1 I2 Hr. unfold exec_op, getth, getvc.
-  destruct o as [d| |j e|j jn ws|j| | |j|j u].
+  destruct o as [d| |j e|j jn ws|j| | |j|j u| |]; try now apply inv2_wait_all_op.
   - destruct (th_k (s_th s c)) as [|[|k]].
     + destruct (expired _ _).
       * apply inv2_yield; [now apply inv1_setk|now apply inv2_setk|hr_neutral2].
@@ -285,9 +302,9 @@ Qed.
 Lemma inv12_step : forall progs s l, Inv1 s -> Inv2 s -> Inv1 (step progs s l) /\ Inv2 (step progs s l).
 Proof.
   intros progs s l I1 I2. split; [now apply inv1_step|].
-  unfold step. destruct (s_stuck s); auto.
+  unfold step. destruct (s_stuck s); auto. destruct (frozen _ _ _); auto.
   destruct l as [v|v|v|v u t|d].
-  - destruct (Nat.ltb _ _); auto. now apply inv2_step_vcpu.
+  - destruct (Nat.ltb _ _); auto. destruct (pend_to_offline _ _ _); [apply (inv2_same s); auto|]. now apply inv2_step_vcpu.
   - destruct (_ && _); auto. unfold do_drain. now apply inv12_drain_list.
   - destruct (_ && _); auto. now apply inv2_do_resume.
   - destruct (_ && _); auto. now apply inv2_do_steal.
